@@ -114,11 +114,12 @@ func execCases(args []string) {
 		for _, f := range c.F {
 			isolate = isolate || kinds[f.K].isolate
 		}
+		dead := map[string]string{}
 		for _, o := range expandOpts(&c, *masks) {
 			var ev event
 			var raws map[string]string
 			if isolate {
-				ev, raws = runIsolated(&c, o) // recursive types: child process, a fatal error is attributed to the case
+				ev, raws = runIsolated(&c, o, dead) // recursive types: child process, a fatal error is attributed to the case
 			} else {
 				ev, raws = runCase(&c, o)
 			}
